@@ -499,7 +499,8 @@ func (c *codecRun) viaClient(format string, direct bool) {
 			cases = append(cases, tc{5, c.rng.Intn(200), 0, l})
 		}
 	}
-	for i, t := range cases {
+	nw := 0
+	for ci, t := range cases {
 		c.evals++
 		var method string
 		if format == wire.JSON {
@@ -508,14 +509,21 @@ func (c *codecRun) viaClient(format string, direct bool) {
 			method = string(c.randBytes(t.mlen))
 		}
 		args := c.randBytes(t.alen)
-		cs := fmt.Sprintf("%s/client/direct=%v/#%d/method=%d/args=%d/reply=%d/err=%d", format, direct, i, t.mlen, t.alen, t.rlen, t.elen)
+		cs := fmt.Sprintf("%s/client/direct=%v/#%d/method=%d/args=%d/reply=%d/err=%d", format, direct, ci, t.mlen, t.alen, t.rlen, t.elen)
 		c.sigs[fmt.Sprintf("%s/client/%v/%d/%d/%d/%d", format, direct, t.mlen, t.alen, t.rlen, t.elen)] = true
 		var reply []byte
 		call := conn.Go(method, &args, &reply, make(chan *rpc.Call, 1))
-		if !waitFor(func() bool { return sm.NumWrites() >= i+1 }, 20*time.Second) {
+		if !waitFor(func() bool { return sm.NumWrites() >= nw+1 || len(call.Done) > 0 }, 20*time.Second) {
 			mon.Emit(mon.Result{T: "case", Engine: "codec", Case: cs, Verdict: mon.Inconclusive, Prop: "C07", What: "no request frame within 20 s"})
 			return
 		}
+		if sm.NumWrites() < nw+1 {
+			// the call completed without a frame having been written: the header could not be encoded
+			c.violate(cs, fmt.Sprintf("a request with a %d-byte method and %d-byte body could not be encoded and sent: %v", t.mlen, t.alen, call.Error), "C07/"+format+"/client-cannot-encode", nil)
+			continue
+		}
+		nw++
+		i := nw - 1
 		out := sm.Frame(i)
 		req, err := wire.DecodeReq(format, out, true)
 		if err != nil {
